@@ -28,7 +28,7 @@ RULE = ("rule-based state machine that owns the clock: a receiver (|lat| <= 70, 
         "in ADS-B and BDS 5,0 data attached for listed ones; the two tables are equal after upper-casing; every stored position whose tpos is the timestamp of "
         "a position message is within max(0.001 deg, one CPR step) of the true position at that message (lon mod 360). non-trivial = history with a global and "
         "a reference decode, an eviction, a Comm-B merge, or a crossing of an NL band / equator / antimeridian"
-        " Also: histories starting at 1000, 0, negative or 1.7e9 seconds, process_raw called three times less than a second apart across 59-61 s of silence, a decoder created without a receiver position, every third Comm-B reply with identical header bits, and the repository's real reception log replayed in batches of 1/2/5/17 s (leg real_traffic); crowds of 40-2100 further aircraft, a decoder with dumpto=<scratch directory>, messages with equal time stamps with and without a vertical rate / an altitude, pairs after a 20-minute position gap at 600 kt, a frame bit-identical to the one sent a whole CPR zone earlier (rule zone_walk), Comm-B replies from unknown addresses that differ from a tracked one by a register number in the top byte or by one bit, BDS 3,0 reports naming tracked aircraft as the threat. Further invariants: a call changes only the records of the aircraft that sent something in it; a stored position that changed in a call is within tolerance of the true position at one of that aircraft's position messages of the call.")
+        " Also: histories starting at 1000, 0, negative or 1.7e9 seconds, process_raw called three times less than a second apart across 59-61 s of silence, a decoder created without a receiver position, every third Comm-B reply with identical header bits, and the repository's real reception log replayed in batches of 1/2/5/17 s (leg real_traffic); crowds of 40-5300 further aircraft, squitters that arrive with a damaged parity field (their sender was heard all the same), a decoder with dumpto=<scratch directory>, messages with equal time stamps with and without a vertical rate / an altitude, pairs after a 20-minute position gap at 600 kt, a frame bit-identical to the one sent a whole CPR zone earlier (rule zone_walk), Comm-B replies from unknown addresses that differ from a tracked one by a register number in the top byte or by one bit, BDS 3,0 reports naming tracked aircraft as the threat. Further invariants: a call changes only the records of the aircraft that sent something in it; a stored position that changed in a call is within tolerance of the true position at one of that aircraft's position messages of the call.")
 ASSUMPTIONS = ["timestamps non-decreasing and tnow >= every timestamp of the batch", "surface aircraft stay within 30 NM of the receiver (surface CPR needs the receiver within 45 NM)",
                "noise messages use addresses distinct from the trajectory aircraft", "a Comm-B reply counts as 'heard' only for an address the table listed at that moment",
                "the zmq/multiprocessing plumbing and the curses screen of modeslive are not run",
@@ -147,8 +147,10 @@ class Sim:
         keys = sorted(self.acs)
         return keys[idx % len(keys)] if keys else None
 
-    def _emit(self, addr, me, df, kind="a"):
-        msg = frames.tohex(frames.df17(addr, me, ca=5, df=df), 112)
+    def _emit(self, addr, me, df, kind="a", damage=0):
+        # damage: 24 bits XORed into the parity field - process_raw is handed the message all the same (the reader's admission test is C01/C19's
+        # subject); whoever sent it was heard
+        msg = frames.tohex(frames.df17(addr, me, ca=5, df=df) ^ (damage & 0xFFFFFF), 112)
         self.batch_a.append((self.now, msg))
         self.stats["msgs"] += 1
 
@@ -272,7 +274,7 @@ class Sim:
     def noise(self, idx, df, seed):
         addr = NOISE[idx % len(NOISE)]
         r = mix("n", seed)
-        self._emit(addr, r.getrandbits(56), df)
+        self._emit(addr, r.getrandbits(56), df, damage=r.getrandbits(24) if seed % 3 == 0 else 0)   # every third one arrives with a damaged parity field
 
     # ---- flush + invariants
     def flush(self):
@@ -584,7 +586,7 @@ class Machine(RuleBasedStateMachine):
         self.do("flush")
 
     @precondition(lambda self: self.busy and self.sim.stats["msgs"] < 5000)
-    @rule(n=st.sampled_from([40, 300, 1030, 1500, 2100]), seed=st.integers(0, 1), dt=st.sampled_from([0.0, 5.0, 30.0]))
+    @rule(n=st.sampled_from([40, 300, 1030, 1500, 2100, 2100, 5300]), seed=st.integers(0, 1), dt=st.sampled_from([0.0, 5.0, 30.0]))
     def crowd(self, n, seed, dt):
         """a busy sky: hundreds to thousands of further aircraft heard within the same minute"""
         self.do("crowd", n, seed)
